@@ -132,7 +132,7 @@ PROPS["C16"] = {
         "quick": "(a) update: ARBITRARY invariant state with <= 2 wins and <= 2 losses, win/loss return sums n/d (n<4, d<=2), raw PnL -3..3; closed position "
                  "with realised PnL -3..3, entry price 1..3, max quantity 1..3. (b) generate on an arbitrary invariant state of the same shape; interval "
                  "TimeDelta::seconds(2), risk-free return 0; unwind 8",
-        "thorough": "quick + the same two harnesses with <= 4 wins/losses and 3-bit values",
+        "thorough": "quick + update with <= 4 wins/losses (2-bit values) and generate with <= 4 wins/losses and 3-bit values",
     },
     "outside": ["Sharpe / Sortino / Calmar / rate-of-return values (sqrt and time scaling are stubbed; not part of the property)",
                 "TradingSummaryGenerator::{init, generate} per-instrument / per-asset maps (hash containers)",
@@ -151,14 +151,15 @@ PROPS["C14"] = {
         "barter::engine::state::connectivity::ConnectivityStates::{update_from_market_event, update_from_account_event, update_from_market_reconnecting, update_from_account_reconnecting}",
         "barter::engine::state::connectivity::ConnectivityStates::{connectivity, connectivity_mut, connectivity_index, connectivity_index_mut, exchange_states}",
         "barter::engine::state::connectivity::ConnectivityState::all_healthy",
+        "thorough: barter::engine::Engine::{update_from_market_stream, update_from_account_stream} (Reconnecting arm) with a counting OnDisconnectStrategy",
     ],
     "bounds": {
         "quick": "one inductive step from an ARBITRARY invariant-satisfying state over 3 exchanges (6 symbolic health flags), symbolic operation target; "
                  "plus the 2-step drop-then-recover sequence; unwind 6",
-        "thorough": "same as quick",
+        "thorough": "quick + Engine::update_from_{market,account}_stream(Reconnecting(x)) on a literal 2-exchange engine state with arbitrary link health, "
+                    "symbolic exchange and stream kind, and a counting OnDisconnectStrategy",
     },
-    "outside": ["more than 3 exchanges (the step is uniform in the number of exchanges; capacity of the stand-in container is 4)",
-                "Engine::update_from_{account,market}_stream invoking Strategy::on_disconnect (engine-level; see C03/C10 notes)"],
+    "outside": ["more than 3 exchanges (the step is uniform in the number of exchanges; capacity of the stand-in container is 4)"],
     "assumptions": ["pre-state invariant: global == Healthy <=> all links healthy (established by generate_empty_indexed_connectivity_states: all reconnecting)"],
     "tiers": {
         "quick": {"filters": ["c14_q_", "c14_twin_"], "jobs": 6, "harness_timeout_s": 600, "total_timeout_s": 1500},
@@ -202,6 +203,7 @@ PROPS["C15"] = {
         "barter::engine::state::position::{Position::update_pnl_unrealised, calculate_pnl_unrealised, approximate_remaining_exit_fees}",
         "barter::engine::state::position::PositionManager::update_from_trade (post-fill value)",
         "barter::engine::state::connectivity::ConnectivityStates::update_from_market_event, InstrumentStates::instrument_index_mut",
+        "two-instrument engine state: the event's instrument is re-valued, the other instrument is untouched",
     ],
     "bounds": {
         "quick": "literally constructed engine state: 2 exchanges, 1 instrument with an ARBITRARY open position (2-bit quantities, side concrete per harness), "
@@ -230,16 +232,16 @@ PROPS["C05"] = {
         "quick": "one step from an ARBITRARY valid side with a CONCRETE number of levels n in {0,1,2} (prices 0..7, amounts 1..3, strictly ordered) and an "
                  "one arbitrary upserted level (amount 0 = delete; front/middle/back inserts, replace, delete, delete-absent all "
                  "reachable), both sides; book-level Update and Snapshot events on a 1+1-level book; unwind 8",
-        "thorough": "quick + n = 3 with 1 update + two-element update lists (first element replaces an existing level so the intermediate length stays concrete; second arbitrary: duplicate price, delete, insert), both sides",
+        "thorough": "quick + n = 3 with 1 update, both sides",
     },
-    "outside": ["level counts above 3 and update lists above 2 (the step is uniform in n, but only these n are solver-checked)",
+    "outside": ["level counts above 3; update lists of more than one level in ONE solver query (a list is applied as a sequence of single upserts, which the one-step harnesses cover by induction; two-element lists did not fit: > 24 GB)",
                 "sort_unstable_by inside OrderBookSide::{bids,asks}: for more than 20 levels with duplicate prices in ONE update the relative order of the "
                 "duplicates is unspecified (pattern-defeating quicksort) - outside the bounds",
                 "OrderBookL2Manager::run (async, RwLock)"],
     "assumptions": ["venue contract: a Snapshot event carries distinct prices with non-zero amounts (the constructor sorts but does not de-duplicate)"],
     "tiers": {
         "quick": {"filters": ["c05_q_", "c05_twin_"], "jobs": 5, "harness_timeout_s": 700, "total_timeout_s": 3000, "mem_gb": 12},
-        "thorough": {"filters": ["c05_"], "jobs": 12, "harness_timeout_s": 3000, "total_timeout_s": 9000, "mem_gb": 10},
+        "thorough": {"filters": ["c05_"], "jobs": 5, "harness_timeout_s": 3000, "total_timeout_s": 9000, "mem_gb": 16},
     },
 }
 
@@ -250,13 +252,15 @@ PROPS["C09"] = {
         "barter::engine::state::instrument::data::DefaultInstrumentMarketData::process(&MarketEvent) - trade and top-of-book arms",
         "barter::engine::state::order::Orders::update_from_order_snapshot - the ten C01 cells whose input carries exchange-reported open-order data "
         "(snapshot Open / CancelInFlight(Some) on every pre-state kind), for the 'never moves back to an older exchange timestamp' assertion",
+        "barter::engine::state::EngineState::update_from_account - BalanceSnapshot and full Snapshot items routed to AssetStates::asset_index_mut (2 assets, "
+        "concrete target per harness)",
     ],
     "bounds": {
         "quick": "one inductive step from an arbitrary held (timestamp 0..3 s, value) or nothing, with an arbitrary message (timestamp 0..3 s, value): "
                  "balances 0..7, trade prices 1..7, top-of-book levels with either side possibly missing; unwind 26",
         "thorough": "same as quick",
     },
-    "outside": ["EngineState::update_from_account routing, incl. full account snapshots item by item (engine-level)"],
+    "outside": ["EngineState::update_from_account routing of order snapshots / cancel responses / trades; full account snapshots carrying several items or instrument order lists"],
     "assumptions": ["connector contract (true for both L1 connectors in the tree): an L1 event's last_update_time equals its exchange time",
                     "stub: Decimal::from_f64 defined on small non-negative integers"],
     "tiers": {
